@@ -389,6 +389,7 @@ func TestC11Logger(t *testing.T)     { rapid.Check(t, propC11Logger) }
 func TestC11Concurrent(t *testing.T) { rapid.Check(t, propC11Concurrent) }
 
 func TestRegressC11(t *testing.T) {
+	c11ProductionPresetSamples(t)
 	core, logs := observer.New(zapcore.InfoLevel)
 	hooks := 0
 	s := zapcore.NewSamplerWithOptions(core, 10, 2, 3, zapcore.SamplerHook(func(zapcore.Entry, zapcore.SamplingDecision) { hooks++ }))
